@@ -17,4 +17,5 @@ import Props.C19Formats
 #print axioms Webauthn.Props.C19.fmt_android_key_in_hierarchy
 #print axioms Webauthn.Props.C19.fmt_tpm_in_hierarchy
 #print axioms Webauthn.Props.C19.fmt_safetynet_in_hierarchy
+#print axioms Webauthn.Props.C19.semantic_reg_closed
 #print axioms Webauthn.sigPlan_fail
